@@ -79,7 +79,7 @@ def handleId (f : List String) : String × String × String :=
       (diff, judge, tags)
   | _ => ("bad-fields", "-", "-")
 
-/-- hop syntax: `h:<hex>` / `g:none|empty|<hex>,..`, optionally followed by `!<hex>` = the receiving
+/-- hop syntax: `h:none|<hex>,..` (the values of a pre-existing header; `-` = an empty value) / `g:none|empty|<hex>,..`, optionally followed by `!<hex>` = the receiving
 context already holds that identifier. -/
 def parseHop (s0 : String) : Option Hop :=
   let (s, recv?) : String × Option Ctx := match s0.splitOn "!" with
@@ -88,7 +88,8 @@ def parseHop (s0 : String) : Option Hop :=
   match recv? with
   | none => none
   | some recv =>
-    if s.startsWith "h:" then (hexDecode (s.drop 2).toString).map (fun e => Hop.http e recv)
+    if s == "h:none" then some (.http [] recv)
+    else if s.startsWith "h:" then (parseOkList (s.drop 2).toString).map (fun l => Hop.http l recv)
     else if s == "g:none" then some (.grpc none recv)
     else if s == "g:empty" then some (.grpc (some []) recv)
     else if s.startsWith "g:" then (parseOkList (s.drop 2).toString).map (fun l => Hop.grpc (some l) recv)
@@ -100,7 +101,9 @@ header cannot carry an empty identifier. -/
 def hopConflicts (ids : String) (h0 : String) : Bool :=
   let h := (h0.splitOn "!").headD h0
   if h.startsWith "h:" then
-    let ex := (h.drop 2).toString
+    -- the receiver (and the sender's check) see the FIRST value of a pre-existing header; an absent
+    -- header (`h:none`) and one whose first value is empty (`-`) hold nothing that conflicts
+    let ex := if h == "h:none" then "-" else (((h.drop 2).toString).splitOn ",").headD "-"
     ids == "-" || !(ex == "-" || ex == ids)
   else
     !(h == "g:none" || h == "g:" ++ ids)
